@@ -195,6 +195,9 @@ def run(ctx, report):
     if n_actions < 55:
         raise AnalysisError('only %d grammar actions found (floor 55)' % n_actions)
 
+    # D2 (evaluated): the displacement written before the brackets is added with the sign it is written with
+    disp_outside_rule(ctx, R2)
+
     R3 = report.rule('C19.D3', 'both operand grammars give base+index*scale the same meaning when base and index coincide', floor=2)
     from .c02 import accumulate_rule
     accumulate_rule(R3, ctx.mod('ia32_att'), ctx.mod('parse_ad'))
@@ -248,6 +251,117 @@ def run(ctx, report):
                              % (spelled, name, got), where(X.arch, fa.node), witness="asm_att('%s %%ebx, %%eax') vs asm('%s eax, ebx')" % (spelled, name))
     if n_cc < 40:
         raise AnalysisError('only %d cmov/set aliases found in the opcode table' % n_cc)
+    # the marks the AT&T grammar puts on a memory operand (x86_afs.ad: True, or a size token when a segment / '*' prefix is present) must all be
+    # recognised by the function that gives the operand the size of the mnemonic suffix
+    from ..consteval import Evaluator as _Ev, NotConst as _NC
+    marks = []
+    for fname, fn in sorted(att.funcs.items()):
+        if not fname.startswith('p_argument'):
+            continue
+        for n in ast.walk(fn):
+            if isinstance(n, ast.Assign) and isinstance(n.targets[0], ast.Subscript) and u(n.targets[0].slice) == 'x86_afs.ad':
+                marks.append((fname, n.value))
+            if isinstance(n, ast.Dict):
+                for k, v in zip(n.keys, n.values):
+                    if k is not None and u(k) == 'x86_afs.ad':
+                        marks.append((fname, v))
+    if len(marks) < 2:
+        raise AnalysisError('the AT&T grammar actions that mark memory operands (x86_afs.ad) were not found')
+    setsize = X.arch.func('mnemo_from_att_set_size')
+    for fname, vnode in marks:
+        try:
+            mark = _Ev({'x86_afs': afs}).ev(vnode)
+        except _NC as e:
+            raise AnalysisError('%s: memory mark not evaluable: %s' % (fname, e))
+        if mark is False:
+            continue
+        inst = 'memory mark %r (%s)' % (mark, fname)
+        for size in (afs.u08, afs.u16):
+            operand = {afs.ad: mark, afs.size: afs.u32, 0: 1}
+            try:
+                _Ev({'x86_afs': afs}).call_user(setsize, [size, [operand]])
+            except _NC as e:
+                raise AnalysisError('mnemo_from_att_set_size is outside the statically evaluable subset: %s' % e)
+            if operand.get(afs.size) != size or operand.get(afs.ad) != size:
+                R4.violation(inst, 'att-mem-mark:%r' % (mark,), 'the AT&T grammar (%s) marks a memory operand with ad = %r, which mnemo_from_att_set_size does not treat as memory: the size of the '
+                             'mnemonic suffix (%s) is not applied, the operand stays 32-bit' % (fname, mark, size), where(X.arch, setsize),
+                             witness="asm_att('incw %gs:20') assembles a 32-bit inc; asm('inc WORD PTR gs:[20]') a 16-bit one")
+                break
+        else:
+            R4.ok(inst, sample='ad = %r is given the suffix size' % (mark,))
+
+
+def disp_outside_rule(ctx, R):
+    """`N[expr]`, `-N[expr]`, `N+sym[expr]`, `-N+sym[expr]` (gcc -masm=intel spellings): the grammar actions are evaluated on a synthetic
+    parse (number 8, expression eax+5, symbol foo) and the resulting operand compared with [eax+5 (+foo) +/- 8]."""
+    from ..consteval import Evaluator, NotConst, Native, PyRaise
+    from ..x86table import model as x86model
+    afs = x86model(ctx).afs
+    mod = ctx.mod('parse_ad')
+    n = 0
+    for fname, fn in sorted(mod.funcs.items()):
+        if not fname.startswith('p_brackets'):
+            continue
+        pr = productions(fn)
+        if pr is None:
+            continue
+        head, alts = pr
+        for alt in alts:
+            if 'NUMBER' not in alt or 'LBRA' not in alt:
+                continue
+            n += 1
+            t = [None]
+            sign = 1
+            has_sym = False
+            for i, sym in enumerate(alt):
+                if sym == 'MINUS':
+                    t.append('-')
+                    if i + 1 < len(alt) and alt[i + 1] == 'NUMBER':
+                        sign = -1
+                elif sym == 'PLUS':
+                    t.append('+')
+                elif sym == 'NUMBER':
+                    t.append('8')
+                elif sym in ('LBRA', 'RBRA'):
+                    t.append('[' if sym == 'LBRA' else ']')
+                elif sym == 'symbol':
+                    has_sym = True
+                    t.append({afs.symb: {'foo': 1}})
+                elif sym in ('expression', 'ptrformula'):
+                    t.append({0: 1, afs.size: afs.u32, afs.imm: 5})
+                else:
+                    raise AnalysisError('%s: unmodelled symbol %s in a displacement production' % (fname, sym))
+            env = {'x86_afs': afs, 'uint32': Native(lambda x: int(x) & 0xFFFFFFFF),
+                   'int32': Native(lambda x: (int(x) & 0xFFFFFFFF) - (1 << 32) if (int(x) & 0xFFFFFFFF) >> 31 else int(x) & 0xFFFFFFFF)}
+            inst = '%s: %s' % (fname, ' '.join(alt))
+            try:
+                Evaluator(env).call_user(fn, [t])
+            except PyRaise as e:
+                R.violation(inst, '%s:raises:%s' % (fname, e.exc_name), 'the action of `%s` raises %s on a well-formed operand' % (' '.join(alt), e.exc_name), where(mod, fn))
+                continue
+            except NotConst as e:
+                raise AnalysisError('%s is outside the statically evaluable subset: %s' % (fname, e))
+            out = t[0]
+            want_imm = 5 + sign * 8
+            problems = []
+            if not isinstance(out, dict):
+                problems.append('no operand dictionary is produced')
+            else:
+                if out.get(afs.imm) != want_imm:
+                    problems.append('the displacement is %s, `%s` denotes %d (5 inside the brackets %s 8)' % (out.get(afs.imm), ' '.join(alt), want_imm, '-' if sign < 0 else '+'))
+                if out.get(0) != 1:
+                    problems.append('the base register is lost')
+                if not out.get(afs.ad):
+                    problems.append('the operand is not marked as an address')
+                if has_sym and out.get(afs.symb) != {'foo': 1}:
+                    problems.append('the symbol is lost')
+            if problems:
+                R.violation(inst, '%s:disp:%s' % (fname, ';'.join(problems)[:80]), '%s: %s' % (inst, '; '.join(problems)), where(mod, fn),
+                            witness="asm('mov eax, DWORD PTR -8[ebp]') encodes [ebp+8]" if sign < 0 else None)
+            else:
+                R.ok(inst, sample='%s -> displacement %d' % (' '.join(alt), want_imm))
+    if n < 4:
+        raise AnalysisError('only %d displacement-outside-brackets productions found in parse_ad' % n)
 
 
 MUTANTS = [
